@@ -678,13 +678,20 @@ pub fn generate(seed: u64, tier: Tier) -> Case {
             repeat: 1,
         });
     }
+    let mut worlds = vec![world];
+    let mut params = Params::default();
+    if rng.chance(1, 8) {
+        if let Some((from, to)) = crate::mutate::coincide(&mut rng, &mut worlds, true) {
+            params.notes.push(format!("coincidence:{from}->{to}"));
+        }
+    }
     Case {
         property: "C10".into(),
         family: "graph".into(),
         seed,
-        worlds: vec![world],
+        worlds,
         builds,
-        params: Params::default(),
+        params,
     }
 }
 
@@ -825,16 +832,19 @@ pub fn completeness(
                 }
                 continue;
             }
-            let Some(method) = inv
+            // (Several functions of one name can be declared; each needs a wrapper of its own
+            // signature.)
+            let same_name: Vec<&crate::inventory::Method> = inv
                 .methods
                 .get(&ty)
-                .and_then(|ms| ms.iter().find(|m| m.name == f.name.as_str()))
-            else {
+                .map(|ms| ms.iter().filter(|m| m.name == f.name.as_str()).collect())
+                .unwrap_or_default();
+            if same_name.is_empty() {
                 return Err((
                     "function-left-out".into(),
                     format!("{out_rel}: `{ty}::{}` has no emitted wrapper", f.name),
                 ));
-            };
+            }
             let want_params: Vec<String> = f
                 .arguments
                 .iter()
@@ -844,6 +854,13 @@ pub fn completeness(
                 })
                 .collect();
             let want_ret = f.return_type.as_ref().map(normalise_grammar_type);
+            if same_name
+                .iter()
+                .any(|m| m.params == want_params && m.ret == want_ret)
+            {
+                continue;
+            }
+            let method = same_name[0];
             if method.params != want_params {
                 return Err((
                     "parameter-dropped-or-changed".into(),
@@ -924,6 +941,9 @@ pub fn completeness(
                             .map(|t| format!(" -> {}", normalise_grammar_type(t)))
                             .unwrap_or_default()
                     );
+                    if slots.iter().any(|(n, got)| n == f.name.as_str() && *got == want) {
+                        continue;
+                    }
                     match slots.iter().find(|(n, _)| n == f.name.as_str()) {
                         Some((_, got)) if *got == want => {}
                         Some((_, got)) => {
@@ -962,6 +982,14 @@ pub fn completeness(
                     continue;
                 }
                 let want = normalise_grammar_type(ty);
+                if emitted.iter().any(|(n, got)| n == name.as_str() && *got == want) {
+                    continue;
+                }
+                // An array field may legitimately be absent (zero total size); with several
+                // fields of one name there is then nothing to compare it with.
+                if matches!(ty, pyxis::grammar::Type::Array(..)) {
+                    continue;
+                }
                 match emitted.iter().find(|(n, _)| n == name.as_str()) {
                     Some((_, got)) if *got == want => {}
                     Some((_, got)) => {
@@ -1077,17 +1105,8 @@ pub fn evaluate(
                                 )
                             }
                             None => {
-                                // The wording of the error is not part of the property: without
-                                // the familiar list, every unresolvable type must at least be
-                                // named somewhere in the error.
-                                if let Some(missing) =
-                                    model.unresolvable.iter().find(|t| !e.contains(t.as_str()))
-                                {
-                                    return Verdict::violation(
-                                        "failed-type-list-missing",
-                                        format!("build {bi}: `{missing}` is not named in: {e}"),
-                                    );
-                                }
+                                // Some other error came first (or the wording changed): any
+                                // error satisfies "ends the build with an error".
                             }
                         }
                     }
